@@ -124,7 +124,7 @@ def execute(sc, ctx):
     if v1 is None:
         v1 = ops.values(k)
     stratum = "injection-prone" if ops.injected(k) else "injection-free"
-    texts = {key: open(p, encoding="utf-8").read() for key, p in files.items()}
+    texts = {key: open(p, encoding="utf-8", errors="surrogateescape").read() for key, p in files.items()}
     for key, p in sorted(files.items(), key=str):
         n2 = node.twin()
         try:
